@@ -454,3 +454,56 @@ Proof.
   intros pv s H. destruct (preproc_exact pv s) as (out & u & X & Hu & Ep).
   destruct (Hu _ _ (Expand_no_tilde pv s H)) as [E1 E2]. rewrite Ep. subst out u. reflexivity.
 Qed.
+
+(** ** Single pass: the expansion is bounded, whatever the values refer to *)
+
+Fixpoint max_val_len (pv : pvars) : nat :=
+  match pv with
+  | [] => 0
+  | (_, v) :: tl => Nat.max (length v) (max_val_len tl)
+  end.
+
+Lemma pv_lookup_len pv w v : pv_lookup pv w = Some v -> (length v <= max_val_len pv)%nat.
+Proof.
+  induction pv as [|[k x] pv IH]; cbn; [discriminate|].
+  destruct (bytes_eqb k w); [intros [= ->]; lia|]. intros H. specialize (IH H). lia.
+Qed.
+
+Lemma Expand_length pv s out u : Expand pv s out u ->
+  (length out <= length s * S (max_val_len pv))%nat.
+Proof.
+  induction 1 as [|w r out u Hne Hw X IH|c r out u Hno X IH].
+  - cbn. lia.
+  - assert (length (pp_subst pv w) <= (length w + 2) * S (max_val_len pv))%nat as Hs.
+    { unfold pp_subst. destruct (pv_lookup pv w) as [v|] eqn:L.
+      - apply pv_lookup_len in L. nia.
+      - cbn. rewrite app_length. cbn. nia. }
+    rewrite app_length. cbn [length]. rewrite app_length. cbn [length]. nia.
+  - cbn [length]. nia.
+Qed.
+
+(** preprocReplace always returns (it is one left-to-right pass: a value is
+    never scanned again, so values that mention themselves or each other
+    cannot make it run on), and what it returns is no longer than
+    |text| * (1 + longest value). *)
+Theorem preproc_single_pass_bounded : forall pv s,
+  match preproc pv s with
+  | PpOk out => Expand pv s out [] /\ (length out <= length s * S (max_val_len pv))%nat
+  | PpUndefined names => names <> []
+  | PpPanic => False
+  end.
+Proof.
+  intros pv s. destruct (preproc_exact pv s) as (out & u & X & _ & ->).
+  destruct u; [split; [exact X|eapply Expand_length; eauto]|discriminate].
+Qed.
+
+Corollary preproc_terminates_bounded : forall pv s,
+  match preproc pv s with
+  | PpOk out => (length out <= length s * S (max_val_len pv))%nat
+  | PpUndefined names => names <> []
+  | PpPanic => False
+  end.
+Proof.
+  intros pv s. pose proof (preproc_single_pass_bounded pv s) as H.
+  destruct (preproc pv s); [exact (proj2 H)|exact H|exact H].
+Qed.
